@@ -24,7 +24,7 @@ func init() {
 			"populations of more than three providers are not covered (thorough: four for family (a) without the optional field)",
 		},
 		Parts: []Part{
-			{Name: "ranking", Run: func(c *core.Ctx) { resolveRun(c, "C08") }, QuickS: 180, ThoroughS: 1500},
+			{Name: "ranking", Run: func(c *core.Ctx) { resolveRun(c, "C08") }, QuickS: 420, ThoroughS: 1500},
 			{Name: "late-qualifier", Run: c08Late, Workers: 1, QuickS: 30, ThoroughS: 30},
 		},
 	})
@@ -115,6 +115,28 @@ func resolveGen(c *core.Ctx) func(yield func(resolveCase) bool) {
 				s, l := qField{Kind: "single", Qual: qa}, qField{Kind: "slice", Qual: qa}
 				for _, fs := range [][]qField{{s, l}, {miss, s, l}, {s, miss, l}, {s, l, miss}} {
 					if !yield(resolveCase{Pop: pop, Fields: fs, Family: "a"}) {
+						return
+					}
+				}
+			}
+		}
+		// (a') the same shapes for the populations of <= 2 providers with custom names that sort before
+		// the default names (the container enumerates candidates by name: which of two candidates comes
+		// first must not matter)
+		for _, pop := range pops2 {
+			anyNamed := false
+			early := append([]scen.QProv{}, pop...)
+			for i := range early {
+				early[i].First = early[i].Named
+				anyNamed = anyNamed || early[i].Named
+			}
+			if !anyNamed {
+				continue
+			}
+			for _, qa := range qualArgs {
+				s, l := qField{Kind: "single", Qual: qa}, qField{Kind: "slice", Qual: qa}
+				for _, fs := range [][]qField{{s, l}, {miss, s, l}} {
+					if !yield(resolveCase{Pop: early, Fields: fs, Family: "a-names-first"}) {
 						return
 					}
 				}
